@@ -19,6 +19,8 @@
     receive dir.     delivery order = arrival order, nothing twice, nothing invented, nothing
                      skipped unless a receive-buffer shrink / close / peer loss intervened;
                      the peer is read ahead by at most `recv-buffer` + 1 messages
+    recv liveness    with a peer connected a receive is posted on it, unless an arrival found
+                     the receive buffer full and still waits (see `pairLive`)
     non-blocking     NNG_FLAG_NONBLOCK calls complete in their own step without virtual time
     pollable         a non-blocking send / receive directly after `poll` succeeds iff the
                      descriptor polled ready (EAGAIN iff it did not)
@@ -178,6 +180,27 @@ def pairQuiescent (j : PairJ) : PairJ :=
       j.fail "the peer is read ahead although the receive buffer is full"
     else j
 
+/-- receive liveness (the library is quiescent).  pair.c reads the connected peer all the time,
+    except for its documented back-pressure: an arrival that finds the receive buffer FULL (and
+    no receiver waiting) stays parked in the pipe, and the next receive is posted only when the
+    application has made room for it.  So, with a peer connected and no receive posted on it:
+      * some arrived message is still undelivered (the parked one is the newest of them), and
+      * at the end of the very step in which the message arrived, more messages wait than the
+        receive buffer can take (all arrived and undelivered ones count, also those that a
+        receive-buffer shrink may have discarded: the judge cannot know which were).
+    (`recv-buffer` may be raised later: the parked message then stays parked until the next
+    receive, which is why the second bound is only demanded in the step of the arrival.) -/
+def pairLive (ev : Ev) (outs : List Out) (j : PairJ) : PairJ :=
+  if j.closed || j.live.isNone || j.armed then j
+  else if j.held.isEmpty then
+    j.fail "the peer is not read although no message of it waits to be received"
+  else match ev with
+    | .recvDone _ (.ok _) =>
+      if outs.contains (.rv 0) && j.held.length ≤ j.rcap then
+        j.fail "the peer is not read although the receive buffer has room"
+      else j
+    | _ => j
+
 def notExecuted (outs : List Out) : Bool :=
   outs.any (fun o => match o with | .other _ => true | _ => false)
 
@@ -331,7 +354,7 @@ def pairStepWith (nq : Bool) (j : PairJ) (ev : Ev) (outs : List Out) : PairJ :=
   if notExecuted outs then j else   -- the harness refused the line: nothing happened
   let pre := pairPre nq { j with lastPoll := none } ev outs
   let j' := pairPost nq j.lastPoll pre.2 ev outs (pairMid nq pre.2 ev outs pre.1)
-  if nq then j' else pairQuiescent j'
+  if nq then j' else pairLive ev outs (pairQuiescent j')
 
 def pairStep (j : PairJ) (ev : Ev) (outs : List Out) : PairJ := pairStepWith false j ev outs
 
